@@ -30,7 +30,12 @@ type labEnv struct {
 
 	// ports the proxy services listen on (127.0.0.1)
 	httpPort  int // http-proxy, director host carries a port
-	http2Port int // http-proxy, director host is "127.0.0.2": port taken from the incoming connection
+	// one director whose host ("127.0.0.2") carries no port is shared by two http-proxy
+	// services and a copy service on three listening ports: the backend port is the port
+	// of the incoming connection, so each port has its own backend at 127.0.0.2:<port>
+	http2Port int
+	http3Port int
+	copy2Port int
 	sshPort   int
 	copyPort  int // copy, tcp
 	copyUPort int // copy, udp
@@ -38,6 +43,8 @@ type labEnv struct {
 
 	httpB  *httpBackend // 127.0.0.1:<own port>
 	http2B *httpBackend // 127.0.0.2:<http2Port>
+	http3B *httpBackend // 127.0.0.2:<http3Port>
+	copyB2 *tcpBackend  // 127.0.0.2:<copy2Port>
 	sshB   *sshBackend
 	copyB  *tcpBackend
 	copyUB *udpBackend
@@ -186,6 +193,18 @@ func startEnv() (*labEnv, error) {
 	if e.http2B, err = newHTTPBackend(fmt.Sprintf("127.0.0.2:%d", e.http2Port)); err != nil {
 		return nil, err
 	}
+	if e.http3Port, err = freeServerPort(taken, "127.0.0.2"); err != nil {
+		return nil, err
+	}
+	if e.http3B, err = newHTTPBackend(fmt.Sprintf("127.0.0.2:%d", e.http3Port)); err != nil {
+		return nil, err
+	}
+	if e.copy2Port, err = freeServerPort(taken, "127.0.0.2"); err != nil {
+		return nil, err
+	}
+	if e.copyB2, err = newTCPBackend(fmt.Sprintf("127.0.0.2:%d", e.copy2Port)); err != nil {
+		return nil, err
+	}
 	if e.sshB, err = newSSHBackend("127.0.0.1:0"); err != nil {
 		return nil, err
 	}
@@ -233,6 +252,8 @@ func startEnv() (*labEnv, error) {
 	}
 	svc("hp1", "http-proxy", "dhttp")
 	svc("hp2", "http-proxy", "dhttp2")
+	svc("hp3", "http-proxy", "dhttp2")
+	svc("cpt2", "copy", "dhttp2")
 	svc("sshp", "ssh-proxy", "dssh")
 	svc("cpt", "copy", "dcopy")
 	svc("cpu", "copy", "dcopyu")
@@ -247,6 +268,8 @@ func startEnv() (*labEnv, error) {
 	port("tcp", e.dnsPort, "dnsp")
 	port("tcp", e.copyPort, "cpt")
 	port("tcp", e.sshPort, "sshp")
+	port("tcp", e.copy2Port, "cpt2")
+	port("tcp", e.http3Port, "hp3")
 	port("tcp", e.http2Port, "hp2")
 	port("tcp", e.httpPort, "hp1")
 
@@ -259,7 +282,7 @@ func startEnv() (*labEnv, error) {
 	if e.cap == nil {
 		return nil, fmt.Errorf("capture channel was not constructed")
 	}
-	for _, p := range []int{e.dnsPort, e.copyPort, e.sshPort, e.http2Port, e.httpPort} {
+	for _, p := range []int{e.dnsPort, e.copyPort, e.sshPort, e.copy2Port, e.http3Port, e.http2Port, e.httpPort} {
 		deadline := time.Now().Add(15 * time.Second)
 		for {
 			c, err := net.DialTimeout("tcp", fmt.Sprintf("127.0.0.1:%d", p), time.Second)
@@ -273,7 +296,7 @@ func startEnv() (*labEnv, error) {
 			time.Sleep(5 * time.Millisecond)
 		}
 	}
-	for _, p := range []int{e.dnsPort, e.copyPort, e.sshPort, e.http2Port, e.httpPort} {
+	for _, p := range []int{e.dnsPort, e.copyPort, e.sshPort, e.copy2Port, e.http3Port, e.http2Port, e.httpPort} {
 		if !ownListener("tcp", p) {
 			return nil, fmt.Errorf("tcp port %d is not served by this process's server (taken by somebody else in the meantime)", p)
 		}
